@@ -59,6 +59,15 @@ def build(rng, kind):
         out = cf.CoordinateFrame(2, ("SPECTRAL", "TIME"), (0, 1), unit=(u.um, u.s), name="world", axes_names=("a", "b"),
                                  axis_physical_types=("em.wl", "time"))
         return wcs.WCS([(det, tr), (out, None)]), 2, [0, 1]
+    if kind == "degenerate":
+        # more world than pixel axes: pixel 0 -> wavelength and frequency, pixel 1 -> time (FITS gets a degenerate third image axis)
+        tr = models.Mapping((0, 0, 1)) | ((models.Scale(0.5) | models.Shift(2.0)) & (models.Scale(-3.0) | models.Shift(900.0)) &
+                                          (models.Scale(10.0) | models.Shift(100.0)))
+        det = cf.CoordinateFrame(2, ("PIXEL",) * 2, (0, 1), unit=(u.pix,) * 2, name="detector")
+        spec = cf.SpectralFrame(axes_order=(0,), unit=(u.um,), name="wave", axes_names=("lambda",))
+        freq = cf.SpectralFrame(axes_order=(1,), unit=(u.Hz,), name="freq", axes_names=("nu",))
+        tm = cf.TemporalFrame(Time("2020-01-01T00:00:00"), unit=(u.s,), axes_order=(2,), name="time", axes_names=("t",))
+        return wcs.WCS([(det, tr), (cf.CompositeFrame([spec, freq, tm], name="world"), None)]), 2, [0, 1]
     # cube: celestial pair (carried by the linear/SIP part in to_fits) + spectral axis
     sky = (models.Shift(-10) & models.Shift(-12) | models.Scale(1e-3) & models.Scale(1e-3) | models.Pix2Sky_TAN() |
            models.RotateNative2Celestial(30, 40, 180))
@@ -78,7 +87,7 @@ def run(ctx):
     pins.check(ctx, PINS)
     rng = ctx.rng
     problems, terms, meta = [], [], []
-    kinds = ["spec1", "spec1-curved", "spec-time", "coupled2", "cube"]
+    kinds = ["spec1", "spec1-curved", "spec-time", "coupled2", "cube", "degenerate"]
     for ci in range(24 if ctx.quick else 300):
         kind = kinds[ci % len(kinds)]
         w, n, tab_axes = build(rng, kind)
@@ -102,7 +111,7 @@ def run(ctx):
                 w.bounding_box = (0.0, 2.0) if n == 1 else tuple((0.0, 2.0 + i) for i in range(n))
         else:
             w.bounding_box = bb[0] if n == 1 else bb
-        via_to_fits = kind == "cube" or rng.random() < 0.4
+        via_to_fits = kind in ("cube", "degenerate") or rng.random() < 0.4
         try:
             with warnings.catch_warnings():
                 warnings.simplefilter("ignore")
@@ -175,7 +184,8 @@ def run(ctx):
             try:
                 with warnings.catch_warnings():
                     warnings.simplefilter("ignore")
-                    got = np.atleast_1d(np.asarray(fw.all_pix2world(*[[v] for v in p], 0), dtype=float)).ravel()
+                    pp = list(p) + [0.0] * (fw.wcs.naxis - len(p))        # degenerate image axes sit at their only pixel
+                    got = np.atleast_1d(np.asarray(fw.all_pix2world(*[[v] for v in pp], 0), dtype=float)).ravel()
                 want = np.atleast_1d(np.asarray(w(*p, with_bounding_box=False), dtype=float)).ravel()
             except Exception as e:  # noqa
                 problems.append((f"{kind}: evaluating the exported FITS WCS raised {type(e).__name__}: {str(e)[:100]}", {"box": bb}, None))
